@@ -1,0 +1,106 @@
+/*!
+Instrumentation for an external verification harness.
+
+This module only exists when Jiff is compiled with `--cfg jiff_verif`. It is
+not part of Jiff's API. It provides:
+
+* a virtual monotonic clock for the time-to-live logic of the time zone
+  database caches, so that expiry can be reached without waiting, and
+* counters and an optional callback at the interesting points of the cached
+  database lookups (which path a lookup took, and the points between
+  releasing a read lock and acquiring a write lock).
+*/
+
+use core::sync::atomic::{AtomicBool, AtomicU64, Ordering};
+use std::{
+    sync::OnceLock,
+    time::{Duration, Instant},
+};
+
+/// zoneinfo: lookup answered from the cache under the read lock.
+pub const ZONEINFO_FAST_HIT: usize = 0;
+/// zoneinfo: expired entry revalidated by last-modified time and reused.
+pub const ZONEINFO_REVALIDATE_OK: usize = 1;
+/// zoneinfo: expired entry re-read from disk.
+pub const ZONEINFO_RELOAD: usize = 2;
+/// zoneinfo: new entry inserted into the cache.
+pub const ZONEINFO_INSERT: usize = 3;
+/// zoneinfo: the names index was re-read from the directory.
+pub const ZONEINFO_NAMES_REFRESH: usize = 4;
+/// zoneinfo: the database was reset.
+pub const ZONEINFO_RESET: usize = 5;
+/// zoneinfo: between the read-locked fast path and the write lock.
+pub const ZONEINFO_BETWEEN_LOCKS: usize = 6;
+/// zoneinfo: names index, between read unlock and write lock.
+pub const ZONEINFO_NAMES_BETWEEN_LOCKS: usize = 7;
+/// concatenated: same events as above.
+pub const CONCATENATED_FAST_HIT: usize = 8;
+#[allow(missing_docs)]
+pub const CONCATENATED_REVALIDATE_OK: usize = 9;
+#[allow(missing_docs)]
+pub const CONCATENATED_RELOAD: usize = 10;
+#[allow(missing_docs)]
+pub const CONCATENATED_INSERT: usize = 11;
+#[allow(missing_docs)]
+pub const CONCATENATED_NAMES_REFRESH: usize = 12;
+#[allow(missing_docs)]
+pub const CONCATENATED_RESET: usize = 13;
+#[allow(missing_docs)]
+pub const CONCATENATED_BETWEEN_LOCKS: usize = 14;
+/// The number of distinct events.
+pub const EVENTS: usize = 15;
+
+#[allow(clippy::declare_interior_mutable_const)]
+const ZERO: AtomicU64 = AtomicU64::new(0);
+static COUNTS: [AtomicU64; EVENTS] = [ZERO; EVENTS];
+static CALLBACK: OnceLock<fn(usize)> = OnceLock::new();
+
+static VIRTUAL: AtomicBool = AtomicBool::new(false);
+static VIRTUAL_NANOS: AtomicU64 = AtomicU64::new(0);
+static VIRTUAL_BASE: OnceLock<Instant> = OnceLock::new();
+
+/// Record an event and run the callback, if one is installed.
+pub(crate) fn event(id: usize) {
+    COUNTS[id].fetch_add(1, Ordering::Relaxed);
+    if let Some(callback) = CALLBACK.get() {
+        callback(id);
+    }
+}
+
+/// Returns how often each event has happened so far.
+pub fn counts() -> [u64; EVENTS] {
+    let mut counts = [0; EVENTS];
+    for (i, c) in COUNTS.iter().enumerate() {
+        counts[i] = c.load(Ordering::Relaxed);
+    }
+    counts
+}
+
+/// Installs a callback that is run at every event (at most once per process).
+pub fn set_callback(callback: fn(usize)) -> bool {
+    CALLBACK.set(callback).is_ok()
+}
+
+/// Switches the monotonic clock used for cache expiry to a virtual clock that
+/// only moves when `advance_clock` is called.
+pub fn use_virtual_clock() {
+    VIRTUAL_BASE.get_or_init(Instant::now);
+    VIRTUAL.store(true, Ordering::SeqCst);
+}
+
+/// Moves the virtual clock forward.
+pub fn advance_clock(duration: Duration) {
+    let nanos = u64::try_from(duration.as_nanos()).unwrap_or(u64::MAX);
+    VIRTUAL_NANOS.fetch_add(nanos, Ordering::SeqCst);
+}
+
+/// Returns the virtual "now" if the virtual clock is in use.
+pub(crate) fn monotonic_override() -> Option<Instant> {
+    if !VIRTUAL.load(Ordering::SeqCst) {
+        return None;
+    }
+    let base = *VIRTUAL_BASE.get_or_init(Instant::now);
+    base.checked_add(Duration::from_nanos(
+        VIRTUAL_NANOS.load(Ordering::SeqCst),
+    ))
+}
